@@ -83,6 +83,7 @@ func (info ReportingMTAInfo) WriteTo(utf8 bool, w io.Writer) error {
 			return fmt.Errorf("dsn: cannot convert X-Maddy-Sender to a suitable representation: %w", err)
 		}
 
+		sender = quoteAddr(sender)
 		if utf8 {
 			h.Add("X-Maddy-Sender", "utf-8; "+sender)
 		} else {
@@ -136,6 +137,7 @@ func (info RecipientInfo) WriteTo(utf8 bool, w io.Writer) error {
 	if err != nil {
 		return fmt.Errorf("dsn: cannot convert Final-Recipient to a suitable representation: %w", err)
 	}
+	finalRcpt = quoteAddr(finalRcpt)
 	if utf8 {
 		h.Add("Final-Recipient", "utf-8; "+finalRcpt)
 	} else {
@@ -195,6 +197,17 @@ type Envelope struct {
 	To    string
 }
 
+// quoteAddr restores the quoting of the local-part: envelope addresses are
+// handed over without it, "john doe"@example.org as john doe@example.org,
+// which is not an address where one is written down.
+func quoteAddr(addr string) string {
+	mbox, domain, err := address.Split(addr)
+	if err != nil || domain == "" {
+		return addr
+	}
+	return address.QuoteMbox(mbox) + "@" + domain
+}
+
 // headerAddr converts the domain of the address (or of the message ID) to
 // the form that can be used in the header of the report: A-labels unless the
 // report is an internationalized message. The value is returned as is if it
@@ -231,11 +244,7 @@ func GenerateDSN(utf8 bool, envelope Envelope, mtaInfo ReportingMTAInfo, rcptsIn
 	reportHeader.Add("Auto-Submitted", "auto-replied")
 	// The envelope address has no quoting, the header field needs it if the
 	// local-part has spaces or other special characters.
-	toHdr := headerAddr(utf8, envelope.To)
-	if mbox, domain, err := address.Split(toHdr); err == nil && domain != "" {
-		toHdr = address.QuoteMbox(mbox) + "@" + domain
-	}
-	reportHeader.Add("To", toHdr)
+	reportHeader.Add("To", quoteAddr(headerAddr(utf8, envelope.To)))
 	reportHeader.Add("From", headerAddr(utf8, envelope.From))
 	reportHeader.Add("Subject", "Undelivered Mail Returned to Sender")
 
